@@ -2,12 +2,15 @@
    "what processing the blocks of a chain, in order, gives" (C01).  Definitions only.
 
    A block is what contracts.Manager.UpdateChainState extracts from a consensus update for the
-   host's contracts: per contract at most one change (buildContractState emits exactly one
-   StateChanges entry per element diff) — confirmed / revised (with the revision number before
-   and after) / successful (storage proof, or expired with missed >= valid payout) / failed /
-   v2 renewed.  [changes_of false b] is the StateChanges passed to ApplyContracts,
-   [changes_of true b] the one passed to RevertContracts (buildContractState puts the
-   PREVIOUS revision into Revised when reverting). *)
+   host's contracts: confirmed / revised (with the revision number before and after; core folds
+   revisions confirmed in the block of the formation into the created element, and
+   buildContractState records that element as confirmed AND as revised from 0) / successful (storage proof, or expired with
+   missed >= valid payout) / failed / v2 renewed.  One contract may be the subject of several
+   changes of one block ([block_ok] says which combinations consensus allows); ApplyContracts and
+   RevertContracts go through them list by list ([evs1]/[evs2]).  [changes_of false b] is the
+   StateChanges passed to ApplyContracts, [changes_of true b] the one passed to RevertContracts
+   (buildContractState puts the PREVIOUS revision into Revised when reverting; for a reverted
+   formation that is revision 0, the value insertContract wrote). *)
 From HostdBase Require Import Base.
 From HostdContracts Require Import Model.
 Local Open Scope N_scope.
@@ -15,7 +18,8 @@ Local Open Scope N_scope.
 Record block := mkB {
   bidx : idx;
   bConf1 : list N;
-  bRev1 : list (N * N * N);      (* id, revision number before, after *)
+  bRev1 : list (N * N * N);      (* id, revision number before, after; for a contract created in
+                                    this block: (id, 0, revision number of the created element) *)
   bSucc1 : list N;
   bFail1 : list N;
   bConf2 : list (N * N);         (* id, revision number of the confirmed element *)
@@ -57,14 +61,16 @@ Definition evs2 (b : block) : list (N * pev2) :=
   ++ map (fun id => (id, PRen2)) (bRen2 b)
   ++ map (fun id => (id, PFail2)) (bFail2 b).
 
-(* the contracts a block mentions; a block mentions a contract at most once *)
+(* the changes of a block that concern contract [id], in the order ApplyContracts (and
+   RevertContracts: the same order, not the reverse one) goes through them *)
+Definition evl1_of (id : N) (b : block) : list pev1 :=
+  map snd (filter (fun p => fst p =? id) (evs1 b)).
+Definition evl2_of (id : N) (b : block) : list pev2 :=
+  map snd (filter (fun p => fst p =? id) (evs2 b)).
+
+(* the contracts a block mentions *)
 Definition ids1_of (b : block) : list N := map fst (evs1 b).
 Definition ids2_of (b : block) : list N := map fst (evs2 b).
-
-Definition ev1_of (id : N) (b : block) : option pev1 :=
-  option_map snd (find (fun p => fst p =? id) (evs1 b)).
-Definition ev2_of (id : N) (b : block) : option pev2 :=
-  option_map snd (find (fun p => fst p =? id) (evs2 b)).
 
 (** * chain columns of a row *)
 Record ch1 := mkH1 { h_st : st1; h_formed : bool; h_conf : N; h_res : option N }.
@@ -100,9 +106,12 @@ Definition spec_rej1 (neg : N) (rj : option N) (x : ch1) : ch1 :=
   | None => x
   end.
 
+(* all the changes a block carries for one contract, in ApplyContracts order *)
+Definition spec_evs1 (h : N) (l : list pev1) (x : ch1) : ch1 :=
+  fold_left (fun x e => spec_ev1 h e x) l x.
+
 Definition spec_block1 (buffer neg id : N) (b : block) (x : ch1) : ch1 :=
-  spec_rej1 neg (rej_arg buffer (bheight b))
-    (match ev1_of id b with Some e => spec_ev1 (bheight b) e x | None => x end).
+  spec_rej1 neg (rej_arg buffer (bheight b)) (spec_evs1 (bheight b) (evl1_of id b) x).
 
 (* the chain columns of contract [id] after processing the chain S (head = tip) in order, on a
    store that has never seen a block *)
@@ -116,6 +125,8 @@ Definition rspec_ev1 (e : pev1) (x : ch1) : ch1 :=
   | PRev1 o _ => mkH1 (h_st x) (h_formed x) o (h_res x)
   | PSucc1 | PFail1 => mkH1 Active (h_formed x) (h_conf x) None
   end.
+(* RevertContracts goes through the lists in the same order as ApplyContracts *)
+Definition rspec_evs1 (l : list pev1) (x : ch1) : ch1 := fold_left (fun x e => rspec_ev1 e x) l x.
 
 Definition spec_ev2 (i : idx) (e : pev2) (x : ch2) : ch2 :=
   match e with
@@ -138,9 +149,11 @@ Definition spec_rej2 (neg : N) (rj : option N) (x : ch2) : ch2 :=
   | None => x
   end.
 
+Definition spec_evs2 (i : idx) (l : list pev2) (x : ch2) : ch2 :=
+  fold_left (fun x e => spec_ev2 i e x) l x.
+
 Definition spec_block2 (buffer neg id : N) (b : block) (x : ch2) : ch2 :=
-  spec_rej2 neg (rej_arg buffer (bheight b))
-    (match ev2_of id b with Some e => spec_ev2 (bidx b) e x | None => x end).
+  spec_rej2 neg (rej_arg buffer (bheight b)) (spec_evs2 (bidx b) (evl2_of id b) x).
 
 Definition spec2 (buffer neg id : N) (S : list block) : ch2 :=
   fold_right (spec_block2 buffer neg id) fresh_h2 S.
@@ -152,6 +165,7 @@ Definition rspec_ev2 (e : pev2) (x : ch2) : ch2 :=
                       (match g_elem x with Some _ => Some o | None => None end)
   | PSucc2 | PRen2 | PFail2 => mkH2 A2 (g_conf x) None (g_elem x)
   end.
+Definition rspec_evs2 (l : list pev2) (x : ch2) : ch2 := fold_left (fun x e => rspec_ev2 e x) l x.
 
 (** * equality up to the one-way rejection *)
 Definition unconf1 (s : st1) : Prop := s = Pending \/ s = Rejected.
@@ -177,13 +191,91 @@ Definition valid2 (e : pev2) (x : ch2) : Prop :=
   | PSucc2 | PRen2 | PFail2 => g_st x = A2
   end.
 
+(* a list of changes is legal when each one is legal where ApplyContracts meets it *)
+Fixpoint valid_evs1 (h : N) (l : list pev1) (x : ch1) : Prop :=
+  match l with
+  | [] => True
+  | e :: t => valid1 e x /\ valid_evs1 h t (spec_ev1 h e x)
+  end.
+Fixpoint valid_evs2 (i : idx) (l : list pev2) (x : ch2) : Prop :=
+  match l with
+  | [] => True
+  | e :: t => valid2 e x /\ valid_evs2 i t (spec_ev2 i e x)
+  end.
+
+(** * what one block may do to one contract
+
+   core's MidState keeps ONE element diff per contract id and block (consensus/application.go,
+   ms.elements[id]) and merges every transaction of the block that touches the contract into it;
+   buildContractState turns that diff into the entries below.
+
+   v1 ([shape1]), the entries of one contract in one block are
+     - none;
+     - [PForm1; PRev1 0 k]: the contract is created; revisions confirmed in the same block are
+       folded into the created element (reviseFileContractElement: "if fced.Created"), k is its
+       revision number (k = 0: plain formation).  buildContractState records the element both as
+       confirmed and as revised (from 0, the value insertContract wrote), each list in the
+       order of the diffs;
+     - [PForm1] alone: what buildContractState recorded before that repair; the same as k = 0;
+     - [PRev1 o n]: revised (several revisions of one block are merged into the last one);
+     - [PSucc1] / [PFail1]: resolved by a storage proof / at the end of the proof window.
+   Excluded for v1:
+     - two resolutions, or any change after a resolution: a resolved element is spent
+       (validateFileContracts: "conflicts with previous proof or revision", ms.spent);
+     - a revision AND a storage proof of one contract in one block.  Revisions are refused once
+       childHeight > WindowStart ("revises contract after its proof window has opened"), proofs
+       before childHeight >= WindowStart (storageProofWindowID), so consensus allows both exactly
+       in the block at height = WindowStart, provided someone submits the proof one block before
+       the host does (the host builds its proof once the tip has reached WindowStart).  core then
+       overwrites the diff's element with the REVISED contract (resolveFileContractElement), so
+       the revision number the chain held before the block is not in the diff and a revert
+       cannot restore it.  Not covered by the theorems (known finding
+       v1-revision-and-proof-same-block-revert-keeps-revision; the connect direction is repaired,
+       fixes/C01-v1-revised-and-proven-same-block.patch, Build.v [build1_res]);
+     - created and resolved in one block: core allows it for a contract whose WindowStart is the
+       height of its own formation block; the host never signs such a contract (rhp/v2 and
+       rhp/v3 contracts.go refuse fc.WindowStart < currentHeight + settings.WindowSize).
+   v2 ([shape2]):
+     - none; [PForm2 r]: created with revision number r;
+     - [PRev2 o n]: revised; [PSucc2] / [PRen2] / [PFail2]: resolved;
+     - [PRev2 o n; resolution]: revised AND resolved in one block — a revision and a renewal
+       (or, at height = proof height, a storage proof) in different transactions; the diff
+       carries Revision and Resolution (fix d7434ff).  The model also admits revision +
+       expiration, which consensus excludes (an expiration needs childHeight > ExpirationHeight >
+       ProofHeight >= childHeight of any revision): harmless, the theorems only get wider.
+   Excluded for v2:
+     - created together with anything else: a revision or resolution names its parent with a
+       Merkle proof in the accumulator (validateV2FileContracts/validateParent: "is not present
+       in the accumulator"), and resolveV2FileContractElement panics on a created element;
+     - two resolutions, or a revision after the resolution (validateParent: "has already been
+       resolved", ms.spent).
+   Across blocks ([valid1]/[valid2] against the chain below): formation at most once, revision
+   and resolution only between formation and resolution ("has already been resolved in a
+   previous block"), revisions start from the revision the chain holds. *)
+Definition shape1 (l : list pev1) : Prop :=
+  match l with
+  | [] | [PForm1] | [PForm1; PRev1 0 _] | [PRev1 _ _] | [PSucc1] | [PFail1] => True
+  | _ => False
+  end.
+Definition is_res2 (e : pev2) : bool :=
+  match e with PSucc2 | PRen2 | PFail2 => true | _ => false end.
+Definition shape2 (l : list pev2) : Prop :=
+  match l with
+  | [] | [PForm2 _] | [PRev2 _ _] => True
+  | [e] => is_res2 e = true
+  | [PRev2 _ _; e] => is_res2 e = true
+  | _ => False
+  end.
+Definition block_ok (b : block) : Prop :=
+  forall id, shape1 (evl1_of id b) /\ shape2 (evl2_of id b).
+
 (* [negof1 id] = negotiation height of the v1 contract id known to the store (None: unknown) *)
 Definition bvalid (buffer : N) (negof1 negof2 : N -> option N) (S : list block) (b : block) : Prop :=
-  NoDup (ids1_of b) /\ NoDup (ids2_of b) /\
-  (forall id e, ev1_of id b = Some e ->
-     exists ng, negof1 id = Some ng /\ valid1 e (spec1 buffer ng id S)) /\
-  (forall id e, ev2_of id b = Some e ->
-     exists ng, negof2 id = Some ng /\ valid2 e (spec2 buffer ng id S)).
+  block_ok b /\
+  (forall id, evl1_of id b <> [] ->
+     exists ng, negof1 id = Some ng /\ valid_evs1 (bheight b) (evl1_of id b) (spec1 buffer ng id S)) /\
+  (forall id, evl2_of id b <> [] ->
+     exists ng, negof2 id = Some ng /\ valid_evs2 (bidx b) (evl2_of id b) (spec2 buffer ng id S)).
 
 Fixpoint chain_ok (buffer : N) (negof1 negof2 : N -> option N) (S : list block) : Prop :=
   match S with
